@@ -94,6 +94,21 @@ impl SubscriptionActor {
         delegate: SubscriptionManagerDelegate,
     ) -> mpsc::Sender<SubscriptionRequest> {
         let (sender, mut receiver) = mpsc::channel(16);
+        #[cfg(deltio_verif)]
+        let (sender, mut receiver) = {
+            drop::<(
+                mpsc::Sender<SubscriptionRequest>,
+                mpsc::Receiver<SubscriptionRequest>,
+            )>((sender, receiver));
+            mpsc::channel(crate::verif::mailbox_capacity(16))
+        };
+        #[cfg(deltio_verif)]
+        crate::verif_ev!(
+            "sub {} new {} {}",
+            internal_id,
+            info.ack_deadline.as_micros(),
+            info.name
+        );
 
         // If push is configured, register it with the push registry.
         if info.push_config.is_some() {
@@ -183,6 +198,13 @@ impl SubscriptionActor {
 
     /// Posts new messages to the subscription.
     fn post_messages(&mut self, new_messages: Vec<Arc<TopicMessage>>) {
+        #[cfg(deltio_verif)]
+        crate::verif_ev!(
+            "sub {} post {} | {}",
+            self.internal_id,
+            crate::verif::ids_of(&new_messages),
+            self.deleted as u8
+        );
         if self.deleted {
             return;
         }
@@ -195,6 +217,12 @@ impl SubscriptionActor {
     /// delivered to anyone else.
     fn pull_messages(&mut self, max_count: u16) -> Result<Vec<PulledMessage>, PullMessagesError> {
         if self.deleted {
+            #[cfg(deltio_verif)]
+            crate::verif_ev!(
+                "sub {} pull {} 0 -> - | deleted",
+                self.internal_id,
+                max_count
+            );
             return Ok(Default::default());
         }
 
@@ -225,6 +253,18 @@ impl SubscriptionActor {
             self.observer.notify_new_messages_available();
         }
 
+        #[cfg(deltio_verif)]
+        crate::verif_ev!(
+            "sub {} pull {} {} -> {} | {} {} {}",
+            self.internal_id,
+            max_count,
+            crate::verif::micros(now),
+            crate::verif::pulled_of(&result),
+            self.backlog.len(),
+            self.outstanding.len(),
+            !self.backlog.is_empty() as u8
+        );
+
         Ok(result)
     }
 
@@ -237,7 +277,17 @@ impl SubscriptionActor {
             return Ok(());
         }
 
+        #[cfg(deltio_verif)]
+        let verif_ids = ack_ids.iter().map(|a| a.to_string()).collect::<Vec<_>>();
         self.outstanding.remove(ack_ids.into_iter());
+        #[cfg(deltio_verif)]
+        crate::verif_ev!(
+            "sub {} ack {} -> | {} {}",
+            self.internal_id,
+            crate::verif::join(&verif_ids),
+            self.backlog.len(),
+            self.outstanding.len()
+        );
 
         Ok(())
     }
@@ -251,12 +301,26 @@ impl SubscriptionActor {
             return Ok(());
         }
 
+        #[cfg(deltio_verif)]
+        let verif_mods = crate::verif::mods_of(&deadline_modifications);
         let nacks = self.outstanding.modify(deadline_modifications);
+        #[cfg(deltio_verif)]
+        let verif_nacks = crate::verif::pulled_of(&nacks);
         let messages_to_requeue = nacks.into_iter().map(|m| m.into_message());
         self.backlog.append(messages_to_requeue);
         if !self.backlog.is_empty() {
             self.observer.notify_new_messages_available();
         }
+        #[cfg(deltio_verif)]
+        crate::verif_ev!(
+            "sub {} modify {} -> {} | {} {} {}",
+            self.internal_id,
+            verif_mods,
+            verif_nacks,
+            self.backlog.len(),
+            self.outstanding.len(),
+            !self.backlog.is_empty() as u8
+        );
 
         Ok(())
     }
@@ -268,6 +332,8 @@ impl SubscriptionActor {
         }
 
         self.deleted = true;
+        #[cfg(deltio_verif)]
+        crate::verif_ev!("sub {} delete.begin", self.internal_id);
 
         // If the topic is still around, remove ourselves from it's list of subscriptions.
         if let Some(topic) = self.topic.upgrade() {
@@ -286,6 +352,8 @@ impl SubscriptionActor {
 
         // Unregister the subscription from push.
         self.push_registry.set(self.info.name.clone(), None);
+        #[cfg(deltio_verif)]
+        crate::verif_ev!("sub {} delete.end", self.internal_id);
 
         Ok(())
     }
@@ -307,12 +375,24 @@ impl SubscriptionActor {
     /// Handles expired messages by putting them back into the backlog.
     fn handle_expired_messages(&mut self, expired: Vec<PulledMessage>) {
         log::debug!("{}: {} messages expired", &self.info.name, expired.len());
+        #[cfg(deltio_verif)]
+        let verif_expired = crate::verif::pulled_of(&expired);
         self.backlog
             .append(expired.into_iter().map(|p| p.into_message()));
 
         if !self.backlog.is_empty() {
             self.observer.notify_new_messages_available();
         }
+        #[cfg(deltio_verif)]
+        crate::verif_ev!(
+            "sub {} expire {} -> {} | {} {} {}",
+            self.internal_id,
+            crate::verif::micros(Instant::now()),
+            verif_expired,
+            self.backlog.len(),
+            self.outstanding.len(),
+            !self.backlog.is_empty() as u8
+        );
     }
 }
 
